@@ -5,7 +5,7 @@ pub fn calibrate(notes: &mut Vec<String>) -> Calib {
         notes.push("link calibration: raw ring not available; linked batches use the documented rule (any error or short read/write severs the chain)".into());
         return Calib::documented();
     };
-    let mut c = Calib { error_severs: [true; 64], short_read_severs: true, from_probe: true };
+    let mut c = Calib { error_severs: [true; 64], short_read_severs: true };
     let mut lenient = Vec::new();
     for p in &pr {
         let severed = p.second_res == -libc::ECANCELED;
@@ -120,14 +120,38 @@ fn rounds_for(p: &Plan, len: usize) -> u32 {
     }
 }
 
+/// temp dirs of shards that died (crash attribution exits without unwinding): remove those whose process is gone
+fn sweep_stale_dirs() {
+    let root = tmp_root();
+    let Ok(rd) = std::fs::read_dir(&root) else { return };
+    for e in rd.flatten() {
+        let name = e.file_name().to_string_lossy().to_string();
+        if let Some(rest) = name.strip_prefix("hur-") {
+            if let Some(pid) = rest.split('-').next().and_then(|p| p.parse::<i32>().ok()) {
+                if !std::path::Path::new(&format!("/proc/{pid}")).exists() {
+                    let _ = std::fs::remove_dir_all(e.path());
+                }
+            }
+        }
+    }
+}
+
 pub fn run(args: &Args) -> Report {
     let t0 = now();
+    sweep_stale_dirs();
     let mut notes = Vec::new();
     let cal = calibrate(&mut notes);
     let probed = probe_flags(&args.out, &cal);
-    let usable: Vec<u32> = probed.iter().filter(|x| x.1 == "usable").map(|x| x.0).collect();
+    // A flag set is left out only when the probe batch fails under it AND passes on the default ring: a probe
+    // that fails everywhere is the wrapper's (or the harness's) problem and must surface as violations, not as skips.
+    let default_ok = probed.iter().any(|x| x.0 == 0 && x.1 == "usable");
+    let probe_failed = |s: &str| s.starts_with("accepted-unusable: probe batch failed");
+    let usable: Vec<u32> = probed.iter().filter(|x| x.1 == "usable" || x.0 == 0 && !x.1.starts_with("refused") || (!default_ok && probe_failed(&x.1))).map(|x| x.0).collect();
+    if !default_ok {
+        notes.push("the probe batch fails on the default ring: no flag set is skipped on account of the probe".into());
+    }
     for (b, s) in &probed {
-        if s != "usable" {
+        if !usable.contains(b) {
             notes.push(format!("set-up flags {} skipped in phase ops — {s}", flags_name(*b)));
         }
     }
@@ -138,7 +162,9 @@ pub fn run(args: &Args) -> Report {
     let sizes: &[u32] = if th { &[1, 2, 4, 8] } else { &[1, 2, 4] };
     if usable.contains(&0) {
         for &e in sizes {
-            plans.push(Plan { entries: e, flags: 0, maxlen: (e as usize).min(if th { 4 } else { 3 }), chain_upto: if th { 3 } else { 2 }, warm: if th { 100 } else { 0 } });
+            // thorough: length 4 on the ring of 4 entries (the ring is completely filled); the ring of 8 stays at length 3
+            let l = if th && e == 4 { 4 } else { 3 };
+            plans.push(Plan { entries: e, flags: 0, maxlen: (e as usize).min(l), chain_upto: if th { 3 } else { 2 }, warm: if th { 100 } else { 0 } });
         }
     }
     for &b in usable.iter().filter(|&&b| b != 0) {
@@ -211,6 +237,10 @@ pub fn run(args: &Args) -> Report {
     r.bound("cases_planned", n_cases_planned);
     r.bound("shards", n_items);
     r.note(format!("wall {:.1}s", t0.elapsed().as_secs_f64()));
+    sweep_stale_dirs();
+    if n_cases_planned == 0 {
+        r.cap("no ring could be set up: nothing was evaluated");
+    }
     if r.evaluations != n_cases_planned {
         r.cap(format!("{} of {} planned cases were evaluated", r.evaluations, n_cases_planned));
     }
